@@ -359,7 +359,7 @@ pub fn streams() -> Vec<Box<dyn AnyStream>> {
 
 pub const PROP: Prop = Prop {
     id: "C17",
-    rule: "cases = (term description, build route, new name, list of 0..4 components incl. duplicates of existing ones); names from a pool of edge strings ('', '+7', '007', '-0', ' 7', full-width and Arabic digits, '1e3', usize::MAX, usize::MAX+1, 40-digit strings) ∪ arbitrary Unicode ∪ long digit strings; oracle: a reference model on descriptions (rename verbatim for the five named atoms; interval accepts exactly ^\\+?[0-9]+$ with value ≤ usize::MAX by decimal-string comparison; placeholder Ok/unchanged; others Err/unchanged; push appends in order to ordered compounds (image index untouched), unites into unordered ones, Err/unchanged for atoms, negation, differences, statements); plus constructor × name-pool × append-list enumeration; stream sequences applies 1..6 mutator calls to ONE instance and compares with the model after every step; evaluations count mutator calls; non-trivial = push on a non-atom; distinct = fingerprint of the case",
+    rule: "cases = (term description, build route, new name, list of 0..4 components incl. duplicates of existing ones, mirrored symmetric statements and copies of the receiver itself); names from a pool of edge strings ('', '+7', '007', '-0', ' 7', full-width and Arabic digits, '1e3', usize::MAX, usize::MAX+1, 40-digit strings) ∪ arbitrary Unicode ∪ long digit strings; oracle: a reference model on descriptions (rename verbatim for the five named atoms; interval accepts exactly ^\\+?[0-9]+$ with value ≤ usize::MAX by decimal-string comparison; placeholder Ok/unchanged; others Err/unchanged; push appends in order to ordered compounds (image index untouched), unites into unordered ones, Err/unchanged for atoms, negation, differences, statements); plus constructor × name-pool × append-list enumeration; stream sequences applies 1..6 mutator calls to ONE instance and compares with the model after every step; evaluations count mutator calls; non-trivial = push on a non-atom; distinct = fingerprint of the case",
     assumptions: &["canonical form as in C01 is used to compare pre/post states"],
     streams,
 };
